@@ -3,9 +3,11 @@
 EXTENDS NcStore
 VARIABLES jin, jph
 jvars == <<jin, jph, file, hist>>
+\* JSON-only arrays: falsy values (0) in 0-d and 1-d integer arrays
+JExtra == {[Cand(<<>>, "i", 0, 0, {}) EXCEPT !.cells = <<0>>], [Cand(<<"x">>, "i", 9, 0, {}) EXCEPT !.cells = <<0, 0, 0>>]}
 JInit == jin = <<>> /\ jph = 0 /\ file = Absent /\ hist = <<>>
 JNext == /\ jph = 0 /\ jph' = 1 /\ UNCHANGED <<file, hist>>
-         /\ \E i \in 1..Len(Pool) : jin' = Pool[i] /\ (Emit => PrintT(ToJson([op |-> "json_roundtrip", in |-> [a |-> Pool[i]], out |-> Pool[i]])))
+         /\ \E a \in {Pool[i] : i \in 1..Len(Pool)} \cup JExtra : jin' = a /\ (Emit => PrintT(ToJson([op |-> "json_roundtrip", in |-> [a |-> a], out |-> a])))
 JSpec == JInit /\ [][JNext]_jvars
 JWellFormed == jph = 1 => WellFormed(jin)
 =============================================================================
